@@ -560,3 +560,13 @@ Proof.
   rewrite (Hag (0%Z, Z.of_nat i)) by (left; apply ex_own_in).
   rewrite (Hag l) by (right; assumption). reflexivity.
 Qed.
+
+(* ------------------------------------------------------------------ the PGS-dense island task as coded *)
+Lemma pgs_dense_outside_footprint :
+  forall t : nat, ~ respects (site_owner pgs_site) 0 t (pgs_dense_task 0 t) /\ ~ respects (site_owner pgs_site) 1 t (pgs_dense_task 1 t).
+Proof.
+  intro t. split; intro H; unfold pgs_dense_task in H.
+  - inversion H as [|l k Hr Hk|]; subst. specialize (Hk 0%Z). inversion Hk as [|l' k' Hr' Hk'|]; subst.
+    vm_compute in Hr'. discriminate.
+  - inversion H as [|l k Hr Hk|]; subst. vm_compute in Hr. discriminate.
+Qed.
